@@ -180,6 +180,14 @@ func (fr *frame) external(x *ssa.Call, fn *ssa.Function, args []*Term, st *state
 		g.Eng.usedStubs[name] = true
 		return
 	}
+	if valueOnlySignature(fn.Signature) {
+		// an unknown library function over value-typed arguments (numbers, strings, interfaces): arbitrary well-typed
+		// results (an interface or pointer result may be nil), no effect on modelled memory.  Harmless uses thereby do
+		// not stop the proof; whatever the proof needs about the result has to come from a stub contract.
+		g.usedAssumptions["external function "+name+" has no stub contract: its results are arbitrary well-typed values (possibly nil) and it does not touch modelled memory"] = true
+		fr.setResult(x, fr.freshResults(x, fn.Signature, st, "ext"))
+		return
+	}
 	g.rejectf("call of external function %s without a stub contract", name)
 	var vals []*Term
 	sig := fn.Signature
@@ -267,4 +275,40 @@ func (fr *frame) sortSliceStable(x *ssa.Call, args []*Term, st *state) bool {
 	fr.sortPerm = perm
 	fr.setResult(x, nil)
 	return true
+}
+
+// valueOnlySignature: no parameter can give the callee access to modelled memory (no pointers, slices, maps,
+// functions, channels - directly or inside structs/arrays), and every result has a modelled sort.
+func valueOnlySignature(sig *types.Signature) bool {
+	var ok func(t types.Type, depth int) bool
+	ok = func(t types.Type, depth int) bool {
+		if depth > 4 {
+			return false
+		}
+		switch u := t.Underlying().(type) {
+		case *types.Basic:
+			return u.Kind() != types.UnsafePointer
+		case *types.Interface:
+			return true
+		case *types.Struct:
+			for i := 0; i < u.NumFields(); i++ {
+				if !ok(u.Field(i).Type(), depth+1) {
+					return false
+				}
+			}
+			return true
+		case *types.Array:
+			return ok(u.Elem(), depth+1)
+		}
+		return false
+	}
+	if sig.Recv() != nil && !ok(sig.Recv().Type(), 0) {
+		return false
+	}
+	for i := 0; i < sig.Params().Len(); i++ {
+		if !ok(sig.Params().At(i).Type(), 0) {
+			return false
+		}
+	}
+	return !sig.Variadic()
 }
